@@ -100,6 +100,7 @@ pub struct SimState {
   pub trace_len: u64,
   pub trace_log: Option<Vec<String>>,
   pub harness_error: Option<String>,
+  pub first_inscription_height: Option<u32>,
   sched_rng: Rng,
 }
 
@@ -191,6 +192,7 @@ impl Sim {
         trace_len: 0,
         trace_log: None,
         harness_error: None,
+        first_inscription_height: config.first_inscription_height,
         sched_rng: Rng::new(0),
       }),
       cv: Condvar::new(),
@@ -281,7 +283,10 @@ impl Sim {
     s.node_events.clear();
     s.crash_point = None;
     if let Some(disk) = &s.disk {
-      let (ops, marks, crashed) = disk.with(|d| (d.ops_since_arm, d.sync_marks.clone(), d.crash_fired));
+      let (ops, marks, crashed, digest) =
+        disk.with(|d| (d.ops_since_arm, d.sync_marks.clone(), d.crash_fired, d.digest));
+      let msg = format!("disk ops={ops} digest={digest:x}");
+      s.note(&msg);
       s.outcome.disk_ops = ops;
       s.outcome.sync_marks = marks;
       s.outcome.crashed |= crashed;
@@ -728,5 +733,9 @@ impl ord::verif::Hooks for SimHooks {
 
   fn skip_index_thread(&self) -> bool {
     true
+  }
+
+  fn first_inscription_height(&self) -> Option<u32> {
+    self.0.lock().first_inscription_height
   }
 }
